@@ -259,7 +259,68 @@ def c06c(ctx):
             ctx.fail(o, ins[0], "TrackedEngine::query caches a value although the query may have failed with CyclicError")
 
 
+def c06d(ctx):
+    """A call that *completes* — with a value or with CyclicError — keeps the dependency it registered: the undo token
+    exists for cancellation only.  If a completed call un-registers its callee, a ring member that unwound with the cycle
+    default stores no edge to its ring successor; when the ring is later broken, dirty propagation cannot reach it and it
+    keeps returning the stale cycle default."""
+    prog = ctx.prog
+    o = ctx.ob("C06.d", "query_for/completed-calls-keep-their-dependency", "K2",
+               "every completion of Engine::query_for (Ok or Err) passes UndoRegisterCallee::defuse, unless no caller registered anything")
+    q = ctx.touch(prog.coroutine_of("Engine::query_for"))
+    reg = q.calls_to(r"Engine::<C>::register_callee$|Engine<C>>::register_callee$")
+    defs = q.calls_to(r"register_callee::UndoRegisterCallee::defuse$")
+    o.sites = len(reg) + len(defs)
+    if len(reg) != 1 or not defs:
+        ctx.fail(o, Site(q, 0, 0), "anchor missing: register_callee / defuse in query_for (%d / %d)" % (len(reg), len(defs)))
+        return
+    none_edges = [(sb, tb) for sb, tb, v, c in df.variant_edges(q, "Option")
+                  if v == 0 and any(x.kind == "call" and x.site == reg[0] for x in df.origins_of_place(q, c.place))]
+    r = q.reachable([reg[0].node["t"]], removed_nodes=[d.bb for d in defs], removed_edges=none_edges)
+    for t in q.returns():
+        if t in r:
+            ctx.fail(o, Site(q, t, len(q.blocks[t]["stmts"])), "query_for can complete while its UndoRegisterCallee is still armed: the drop un-registers the callee, so a query "
+                     "that returns CyclicError (or a value) on that path records no dependency on what it called")
+
+
+def c06e(ctx):
+    """A read that ends in CyclicError keeps its dependency (C06.d) but records no Observation: the publication stores the
+    *order* of all registered callees and the *observations* of those that have one (`if let Some(obs)`).  The consumer of
+    both — check_callee, when the ring is later broken and the edge is dirty — must therefore look the observation up
+    fallibly.  One side tests for None, the other unwraps: a contradiction (Engler et al.), decided here on the consumer."""
+    prog = ctx.prog
+    o = ctx.ob("C06.e", "check_callee/observation-of-a-cyclic-edge-may-be-missing", "K5",
+               "check_callee never unwraps the lookup of a forward edge's observation: an edge recorded on a cyclic read has none")
+    b = ctx.touch(prog.coroutine_of("Snapshot::check_callee"))
+    gets = [s_ for s_ in b.calls_to(r"HashMap::<K, V, S(, A)?>::get$")
+            if any(x.kind == "param" for x in df.origins_of_operand(b, s_.node["args"][0]))]
+    o.sites = len(gets)
+    if not gets:
+        ctx.fail(o, Site(b, 0, 0), "anchor missing: the lookup of the callee's observation in check_callee")
+        return
+    UNWRAP = re.compile(r"Option::<[^>]*>::(unwrap|expect|unwrap_unchecked)$")
+    LOOK_THROUGH = re.compile(r"Option::<[^>]*>::(copied|cloned|as_ref|as_deref)$")
+    for g in gets:
+        work, seen = [g], set()
+        while work:
+            s_ = work.pop()
+            if (s_.bb, s_.idx) in seen:
+                continue
+            seen.add((s_.bb, s_.idx))
+            for kind, site, i in df.forward_uses(b, s_):
+                if kind != "arg":
+                    continue
+                path = site.node["fn"]["path"]
+                if UNWRAP.search(path):
+                    ctx.fail(o, site, "check_callee unwraps the observation of a forward edge; an edge recorded by a read that returned CyclicError has no observation, so "
+                             "breaking the ring at another member and asking this one panics instead of recomputing it")
+                elif LOOK_THROUGH.search(path):
+                    work.append(site)
+
+
 def run(ctx):
+    ctx.run_clause("C06.d", c06d)
+    ctx.run_clause("C06.e", c06e)
     ctx.run_clause("C06.a", c06a)
     ctx.run_clause("C06.b", c06b)
     ctx.run_clause("C06.c", c06c)
